@@ -161,10 +161,10 @@ func (c05) Run(c *mon.Ctx, i int) {
 	all := append(append([]byte(nil), container...), T...)
 	base := map[string]interface{}{"wrapper": wrapper, "container": desc, "container_len": len(container), "container_sha": mon.Sha(container), "suffix_len": len(T), "payload_len": len(payload)}
 	for _, kind := range c05Sources {
-		for _, ctor := range []string{"NewReader", "Reset", "NewReader+reused-elsewhere"} {
-			// third variant: after io.EOF the Reader is Reset onto an unrelated
+		for _, ctor := range []string{"NewReader", "Reset", "NewReader+reused-elsewhere", "Reset+reused-elsewhere"} {
+			// variants: after io.EOF the Reader is Reset onto an unrelated
 			// source and used there before the caller looks at the first source
-			elsewhere := ctor == "NewReader+reused-elsewhere"
+			elsewhere := strings.HasSuffix(ctor, "+reused-elsewhere")
 			if elsewhere && i%3 != 0 {
 				continue
 			}
@@ -176,7 +176,7 @@ func (c05) Run(c *mon.Ctx, i int) {
 				switch wrapper {
 				case "flate":
 					var rd impl.FlateReader
-					if ctor != "Reset" {
+					if !strings.HasPrefix(ctor, "Reset") {
 						rd = c.API.NewFlateReader(src)
 					} else {
 						rd = c.API.NewFlateReader(bytes.NewReader(nil))
@@ -190,7 +190,7 @@ func (c05) Run(c *mon.Ctx, i int) {
 					}
 				case "gzip":
 					var rd impl.GzipReader
-					if ctor != "Reset" {
+					if !strings.HasPrefix(ctor, "Reset") {
 						rd, err = c.API.NewGzipReader(src)
 					} else {
 						rd, err = c.API.NewGzipReader(bytes.NewReader(encodeStdGzip([]byte("x"), 1)))
@@ -210,7 +210,7 @@ func (c05) Run(c *mon.Ctx, i int) {
 					}
 				case "zlib":
 					var rd impl.ZlibReader
-					if ctor != "Reset" {
+					if !strings.HasPrefix(ctor, "Reset") {
 						rd, err = c.API.NewZlibReader(src)
 					} else {
 						rd, err = c.API.NewZlibReader(bytes.NewReader(encodeStdZlib([]byte("x"), 1, nil)))
